@@ -803,6 +803,9 @@ def txt_violations(items, obs):
         # UnicodeEncodeError; any other exception is fresh; an implementation that accepts it is not judged further.
         if obs[0] == "err" and obs[1] == "UnicodeEncodeError":
             return [("C19:txt-str-with-lone-surrogate", FINDING_WHAT["str-with-lone-surrogate"], case)]
+        lim = wf_class(expected_props(items))
+        if lim and lim[1] == "limit":
+            return out  # also has an item over 255 bytes: outside the quantifier, whichever exception comes first
         if obs[0] == "err":
             return [("C19:txt-encode-raises:%s" % obs[1], "a properties dictionary with a lone-surrogate str raised %s" % obs[1], case)]
         return out
